@@ -122,9 +122,7 @@ def getInstance (st : NodeSt) (round : String) : Option (NodeSt × Instance) :=
   | some (ds, p) => (Instance.restore ds p).map (fun i => (st, i))
   | none =>
     if blankId round then none
-    else
-      let i := Instance.create round
-      some (saveFSM st round (i.dumpState, i.payload), i)
+    else some (st, Instance.create round)   -- not saved here (fix: … leaves no trace)
 
 -- ───────────── processMessage ─────────────
 
@@ -190,10 +188,11 @@ inductive Pre where
   /-- go on with the (possibly restarted and re-saved) instance -/
   | cont (st : NodeSt) (inst : Instance)
 
-/-- restart a signing round that ended in an error / timeout state; the restarted dump is saved at once -/
-def restartSigning (st : NodeSt) (inst : Instance) (round : String) (now : Time) : Option (NodeSt × Instance) :=
+/-- restart a signing round that ended in an error / timeout state; the restarted round is saved only
+together with the effect of the message (fix: a rejected message leaves the stored round as it was) -/
+def restartSigning (st : NodeSt) (inst : Instance) (_round : String) (now : Time) : Option (NodeSt × Instance) :=
   match doOrReject inst .e_event_signing_restart (.default now) with
-  | some (i', _) => some (saveFSM st round (i'.dumpState, i'.payload), i')
+  | some (i', _) => some (st, i')
   | none => none
 
 /-- the round stopped in a key-generation error state: the message is swallowed -/
